@@ -139,6 +139,8 @@ def check(run):
       run.tlc_mc("Sort", "Sort_mc_links.cfg", {"MaxTar": "5", "MaxPrio": "3"} if thorough else None, timeout=3000, workers=4)
       run.tlc_mc("Sort", "Sort_mc_dups.cfg", mt, timeout=3000, workers=4)
       run.tlc_mc("Sort", "Sort_mc_implicit.cfg", mt, timeout=3000, workers=4)
+      run.tlc_mc("Sort", "Sort_mc_landmarks.cfg", {"MaxTar": "4", "MaxPrio": "2"} if thorough else None, timeout=3000, workers=4)
+      run.tlc_mc("Sort", "Sort_mc_deep.cfg", {"MaxTar": "5", "MaxPrio": "3"} if thorough else None, timeout=3000, workers=4)
       run.tlc_mc("Sort", "Sort_mc_layout.cfg", {"MaxTar": "4"} if thorough else None, timeout=3000, workers=4)
     neg = [
         ("Sort_mc_implicit.cfg", "ImplicitParents", ["MissingAbortsOrIsReported", "PrioritizedFirstInOrder"]),
@@ -149,7 +151,8 @@ def check(run):
         ("Sort_mc_links.cfg", "LandmarkAfterMoves", ["PrioritizedFirstInOrder", "ParentsAndTargetsBefore", "RestKeepsRelativeOrder"]),
         ("Sort_mc_links.cfg", "LandmarkByList", ["ExactlyOneLandmark"]),
         ("Sort_mc_implicit.cfg", "ReportMissing", ["MissingAbortsOrIsReported"]),
-        ("Sort_mc_dups.cfg", "DropInputLandmarks", ["ExactlyOneLandmark", "EachAtMostOnce"]),
+        ("Sort_mc_landmarks.cfg", "DropInputLandmarks", ["ExactlyOneLandmark", "EachAtMostOnce"]),
+        ("Sort_mc_deep.cfg", "VisitingIsPath", ["MissingAbortsOrIsReported"]),
         ("Sort_mc_dups.cfg", "LastDupWins", ["EachAtMostOnce", "NothingLostOrDuplicated"]),
         ("Sort_mc_layout.cfg", "LandmarkOwnStream", ["LandmarkStartsOwnStream", "PrioritizedDataBeforeLandmark"]),
     ]
@@ -157,10 +160,15 @@ def check(run):
         run.tlc_negctl("Sort", cfg, {guard: "FALSE"}, expect, drop=INTERNAL, workers=4)
 
     # ---------------------------------------------------------------- R: cases from TLC
-    cases = []
-    for cfg, ov in (("Sort_gen_links.cfg", {"MaxTar": "4"} if thorough else None),
-                    ("Sort_gen_dups.cfg", {"UseEntries": "{3, 5, 8, 9, 10, 12}"} if thorough else None),
-                    ("Sort_gen_implicit.cfg", {"UseEntries": "{1, 2, 3, 4, 5, 11}"} if thorough else None)):
+    cases, special = [], set()
+    # the last two are the special families (input landmarks in ./x and /x spellings; two directory levels with hard links):
+    # every one of their cases is replayed in EVERY run under two fixed option sets (Build+gzip and zstd with 2 sub-blobs)
+    for cfg, ov, is_special in (
+            ("Sort_gen_links.cfg", {"MaxTar": "4"} if thorough else None, False),
+            ("Sort_gen_dups.cfg", {"UseEntries": "{2, 3, 5, 8, 12, 16}"} if thorough else None, False),
+            ("Sort_gen_implicit.cfg", {"UseEntries": "{1, 2, 3, 4, 5, 11}"} if thorough else None, False),
+            ("Sort_gen_landmarks.cfg", {"MaxTar": "3", "MaxPrio": "2"} if thorough else None, True),
+            ("Sort_gen_deep.cfg", {"MaxTar": "4", "MaxPrio": "2"} if thorough else None, True)):
         r = run.tlc("SortGen", cfg, ov, workers=1, timeout=3000)
         if not r.completed:
             raise Inconclusive("generation %s failed: %s\n%s" % (cfg, r.error or r.violated, "\n".join(r.out.splitlines()[-30:])))
@@ -168,7 +176,9 @@ def check(run):
         if not got:
             raise Inconclusive("generation %s printed no case" % cfg)
         log("[gen] %-26s %d cases (%d distinct states) %.1fs" % (cfg, len(got), r.distinct, r.wall))
-        run.cov["stages"].append({"stage": "gen", "config": cfg, "cases": len(got), "distinct": r.distinct})
+        run.cov["stages"].append({"stage": "gen", "config": cfg, "cases": len(got), "distinct": r.distinct, "special_family": is_special})
+        for c in got:
+            c["special"] = is_special
         cases += got
     seen, uniq = set(), []
     for c in cases:
@@ -176,10 +186,16 @@ def check(run):
         if k not in seen:
             seen.add(k)
             uniq.append({"tar": c["tar"], "prio": c["prio"], "allow": c["allow"]})
+            if c["special"]:
+                special.add(len(uniq) - 1)
     cases = uniq
     runs = []
     for i, c in enumerate(cases):
-        if thorough:
+        if i in special:
+            runs += [[i, 0], [i, 5]]
+            if thorough:
+                runs.append([i, 3])
+        elif thorough:
             runs += [[i, 0], [i, 1 + run.rng.randrange(len(OPTS) - 1)]]
         else:
             runs.append([i, run.rng.randrange(len(OPTS))])     # quick: every case once, option set drawn by the seed
@@ -194,10 +210,11 @@ def check(run):
     events = read_ndjson(out)
     if len(events) != len(runs):
         raise Inconclusive("driver recorded %d events for %d builds" % (len(events), len(runs)))
-    odd = [e for e in events if e["err"] not in ("", "notfound")]
+    ABORTS = ("", "notfound", "loop")      # D6 of Sort.tla: a "loop" abort goes to the monitor as an abort
+    odd = [e for e in events if e["err"] not in ABORTS]
     for e in odd[:3]:
         run.inconclusive.append("build failed outside C14's vocabulary (%s): %s :: %s" % (e["err"], e["errtext"], json.dumps(brief(e))[:1500]))
-    events = [e for e in events if e["err"] in ("", "notfound")]
+    events = [e for e in events if e["err"] in ABORTS]
     batch_a = [e for e in events if not touches_implicit_parent(e)]
     batch_b = [e for e in events if touches_implicit_parent(e)]
     _, fixed = load_known("C14")
@@ -211,7 +228,8 @@ def check(run):
     run.cov["distinct_nontrivial"] += len({digest([e["tar"], e["prio"], e["allow"], e["opt"], e["scheme"], e["minchunk"]]) for e in nontriv})
     shared = [e for e in nontriv if any(len(s["segs"]) > 1 for s in e["lay"]["streams"])]
     run.cov["stages"].append({"stage": "replay", "cases": len(cases), "builds": len(runs), "implicit_parent_batch": len(batch_b),
-                              "builds_with_shared_streams": len(shared), "notfound_aborts": sum(1 for e in events if e["err"] == "notfound")})
+                              "builds_with_shared_streams": len(shared), "notfound_aborts": sum(1 for e in events if e["err"] == "notfound"),
+                              "special_family_cases": len(special), "loop_aborts": sum(1 for e in events if e["err"] == "loop")})
     run.add_samples([brief(e) for e in (shared[:1] + [e for e in nontriv if e["opt"]["workers"] > 1 and len(e["order"]) > 3][:1])], limit=2)
     run.cov["exhaustive"] = ok == len(events) and not odd
 
